@@ -35,6 +35,7 @@ Norm(v) == IF v.t # "arr" THEN v ELSE Arr([i \in 1..Len(v.a) |-> Norm(v.a[i])], 
 UScalar == { Myst, Null, Bool(TRUE), Bool(FALSE),
              IntV(0), NZero, IntV(1), IntV(-1), IntV(2), Fin(32), Fin(-96), Fin(160),
              Huge, NHuge, NaN, PInf, NInf, Tiny(1, TinyText), Tiny(-1, TinyText),
+             Dec(1, "0.26"), Dec(-1, "123.45"), Dec(1, "0.3"), Str("0.26"),
              Str(""), Str("a"), Str("b"), Str("ab"), Str("0"), Str("1"), Str(" 1"), Str("1.5"), Str("-0"),
              Str("nan"), Str("inf"), Str("true"), Str("2") }
 UArr    == { EmptyArr, A1, A12, A21, AA1, AD, AN, AS, ADO, AMY }
@@ -61,11 +62,11 @@ UJoin   == { EmptyArr, AS, Norm(ASD), A1, Arr(<<Str("a"), IntV(1)>>, <<>>), Arr(
              Arr(<<>>, <<[k |-> [k |-> "str", s |-> "k"], v |-> Str("v")]>>), Arr(<<>>, <<[k |-> [k |-> "str", s |-> "k"], v |-> IntV(1)]>>),
              Arr(<<>>, <<[k |-> [k |-> "null"], v |-> Str("n")], [k |-> [k |-> "str", s |-> "k"], v |-> Str("v")]>>) }
 UJDelim == { NoParam, Str(""), Str(","), Str("-"), IntV(1), Myst, A1 }
-UCastN  == { Tiny(1, TinyText), Tiny(-1, TinyText), IntV(65), IntV(97), IntV(233), IntV(9), IntV(10), IntV(32), IntV(34), IntV(66), IntV(92), IntV(126), IntV(127), IntV(0), NZero, IntV(-1), Fin(4192), IntV(1114111), IntV(1114112),
+UCastN  == { Dec(1, "65.5"), Tiny(1, TinyText), Tiny(-1, TinyText), IntV(65), IntV(97), IntV(233), IntV(9), IntV(10), IntV(32), IntV(34), IntV(66), IntV(92), IntV(126), IntV(127), IntV(0), NZero, IntV(-1), Fin(4192), IntV(1114111), IntV(1114112),
              IntV(55295), IntV(55296), IntV(57343), IntV(57344), NaN, PInf, NInf, Huge, NHuge,
              Big(1, "2147483648"), Big(1, "4294967361"), Big(-1, "4294967230"), Big(1, "4294967296"),
              Big(1, "9223372036854776000") }
-UCastS  == { "", "0", "1", "11", "-11", "+11", "ff", "FF", "zz", "1.5", "-0", "12a", " 1", "1 ", "nan", "inf", "-inf",
+UCastS  == { "0.26", "-123.45", "3.140", "00.3", "0.123456789012345", "0.1234567890123456", "", "0", "1", "11", "-11", "+11", "ff", "FF", "zz", "1.5", "-0", "12a", " 1", "1 ", "nan", "inf", "-inf",
              "Infinity", "1e1", ".5", "5.", ".", "-", "+", "0.1", "1_0", "~", "99999999999", "123456789012345678901",
              "0.0000000000000001", "-0.001", "0.00100", ".001",
              \* unparsable and long: the message that names it must still be renderable
@@ -76,7 +77,8 @@ URadix  == { NoParam, IntV(2), IntV(10), IntV(16), IntV(36), IntV(37), IntV(1), 
              NaN, PInf, Huge, Big(1, "4294967298"), Str("10"), Myst, Null, Bool(TRUE), A1, Tiny(1, TinyText) }
            \cup (IF Tier = "thorough" THEN { IntV(3), IntV(8), IntV(11), IntV(35), IntV(38), IntV(100), NInf, Fin(128 + 1), Big(-1, "4294967294"), Bool(FALSE), EmptyArr, Str("") } ELSE {})
 UTurnMore == { Fin(n) : n \in {2, -2, 31, -31, 33, -33, 64 * 7 + 32, -(64 * 7 + 32), 64 * 1000 + 1, 64 * 16777215, -64 * 16777215 + 63} }
-UTurn   == (IF Tier = "thorough" THEN UTurnMore ELSE {}) \cup { IntV(0), NZero, IntV(1), IntV(-1), Fin(32), Fin(-32), Fin(96), Fin(-96), Fin(160), Fin(-160), Fin(16), Fin(-16),
+UTurn   == (IF Tier = "thorough" THEN UTurnMore ELSE {}) \cup { Dec(1, "2.6"), Dec(-1, "2.6"), Dec(1, "0.26"), Dec(-1, "0.26"), Dec(1, "2.4"), Dec(-1, "7.5000001"), Dec(1, "16777215.9"),
+             IntV(0), NZero, IntV(1), IntV(-1), Fin(32), Fin(-32), Fin(96), Fin(-96), Fin(160), Fin(-160), Fin(16), Fin(-16),
              Fin(48), Fin(-48), Fin(1), Fin(-1), Fin(63), Fin(-63), NaN, PInf, NInf, Huge, NHuge,
              Tiny(1, TinyText), Tiny(-1, TinyText), Tiny(1, "0.009"), Tiny(-1, "0.009"),
              Myst, Null, Bool(TRUE), Str("1"), A1 }
